@@ -6,7 +6,7 @@
     raw path strings.  The theorems below say that this model has every feature the property
     lists, for all histories / all raw strings; that memfs equals the model is what the
     correspondence check (Corr/C01.v + harness/c01.go) tests on every run. *)
-From GC Require Import Common.Base Model.Paths Model.Fs Proofs.Paths Proofs.Fs.
+From GC Require Import Common.Base Model.Paths Model.Fs Proofs.Paths Proofs.Fs Proofs.NonInterf.
 
 (** Every state reachable by ANY finite history of the 16 operations, issued on the root or on
     child views of any depth, with any raw path strings and contents, is a well-formed tree:
@@ -148,6 +148,13 @@ Theorem C01_view_copy : forall b t s d sr dr,
   view_step (view_base b) t (OCopy s d) = upd t (copy_at CAny t (b ++ sr) (b ++ dr)).
 Proof. exact view_copy_is_prefixed. Qed.
 Print Assumptions C01_view_copy.
+
+(** … and in general, for ALL 16 operations: a child view rooted at [b] is the tree-level
+    operation on the path prefixed with [b] ([view_tree_step] spells each case out). *)
+Theorem C01_view_is_tree_step : forall b t o, good_path b = true ->
+  view_step (view_base b) t o = view_tree_step b t o.
+Proof. exact view_step_is_tree_step. Qed.
+Print Assumptions C01_view_is_tree_step.
 
 (** Non-vacuity: concrete histories evaluated by the model. *)
 Definition s2 (l : list N) : bytes := l.
